@@ -50,7 +50,8 @@ P["C02"] = dict(
     decided=["every operand-class write site runs in unsafe mode unless a Safe context/classification applies (S1), all paths, all inputs",
              "a SafeValue override is justified by the value being printed (not a stale p.arg); a SafeMessager's bad-verb report shows the message, not the value",
              "the pool hands out printers with no stale override/context (free precondition), so earlier calls cannot declassify"],
-    undecided=["byte-for-byte equality of two redacted outputs (relational); decided only via the confinement condition above"])
+    undecided=["byte-for-byte equality of two redacted outputs (relational); decided only via the confinement condition above; the bounded "
+               "harness has one recorded OPEN finding here (F16: padding in front of a leading line feed, known_findings.json)"])
 
 P["C03"] = dict(
     level="proof",
@@ -70,7 +71,9 @@ P["C05"] = dict(
           "mode before rendering: handleMethods REQUIRES that a SafeValue operand, or an operand whose dynamic type is in the "
           "registry, arrives under a context (so every caller, also the reflection walk over interface-typed slots, must have "
           "classified it first), and its dispatch-completeness postcondition says which branch handled the operand; the "
-          "signedness of integer leaves is a ghost of pp.fmtInteger. Also carries the frame and ownership obligations of package rfmt."),
+          "signedness of integer leaves is a ghost of pp.fmtInteger; Safe()/Unsafe() wrappers are recognised by their DYNAMIC "
+          "type before any method dispatch, wherever they sit (F11); the parentheses and the i of a complex number are operand "
+          "data (F15). Also carries the frame and ownership obligations of package rfmt."),
     ref="DESIGN 4 (C05)",
     note=TRUST + "Equality of the safe text with 'what fmt would print' is C04 (not applicable); C05 decides on which side of the "
          "envelopes each payload class lands, for all formats and operands.",
@@ -95,13 +98,16 @@ P["C07"] = dict(
           "that the envelope pattern denotes exactly start·(non-marker)*·end, that it is prefix-free and never matches the empty "
           "string (so leftmost-first matching has a unique choice and cannot be greedy across envelopes), and that the marker "
           "class denotes exactly {start, end}. The algebraic laws of Redact/StripMarkers (idempotence, projection, agreement of "
-          "string and []byte variants) are checked exhaustively for all strings over the distinguishing alphabet up to length 6 "
-          "against the real functions: that part is BOUNDED and is not counted as proved."),
+          "string and []byte variants) are checked exhaustively for all strings over the distinguishing alphabet (start, end, cross, "
+          "LF, ordinary byte and each single byte of the markers, so that a marker cut in two by another one occurs) up to length 6 "
+          "(thorough: 7) against the real functions: that part is BOUNDED and is not counted as proved. StripMarkers is also proved "
+          "to return a string in which the marker class matches nowhere (the exit condition of its deletion loop; finding F13)."),
     ref="DESIGN 4 (C07)",
     note=TRUST + "regexp.ReplaceAll*'s leftmost-first replacement semantics is an assumed contract on the dependency; Go's regexp "
          "works on runes, invalid UTF-8 is outside the language-level claim (covered by the bounded part).",
-    decided=["language of both patterns == the specification language; prefix-freeness; no empty match (unbounded, solver)"],
-    undecided=["projection/idempotence laws of Redact/StripMarkers for all strings: bounded exhaustive check only (length <= 6)"])
+    decided=["language of both patterns == the specification language; prefix-freeness; no empty match (unbounded, solver)",
+             "StripMarkers leaves no match of the marker class (given regexp's Match/ReplaceAll as assumed contracts)"],
+    undecided=["projection/idempotence laws of Redact/StripMarkers for all strings: bounded exhaustive check only (length <= 6, thorough 7)"])
 
 P["C08"] = dict(
     level="proof",
@@ -160,7 +166,8 @@ P["C12"] = dict(
           "per-call fields reset, width/precision numbers included) given only the pool invariant PoolInv, and free() requires PoolInv "
           "(empty buffer, no override, no context, no operand/error retained) at every call site, on every path; Take* detaches the "
           "result from the buffer and an array reinterpreted as a string is given up before return (alias.cast); package-level "
-          "variables are written only where declared (frame.global). For the 'calls on other goroutines' half the deductive part "
+          "variables are written only where declared (frame.global); an operand shared by concurrent calls (a StringBuilder printed "
+          "from several goroutines) is only read: the accessors it is printed through write no existing memory (F12). For the 'calls on other goroutines' half the deductive part "
           "establishes what a race needs to be absent: a scan of EVERY function of the module (also those without contracts) finds "
           "each write, address-of, slicing, append/copy-into or pointer-receiver call on a package-level variable, and each must be a "
           "variable declared `shared` with a stated justification (sync.Pool; the two registries written only by Register*)."),
@@ -176,12 +183,14 @@ P["C13"] = dict(
     text=("Accessors (Len, Cap, GetMode, String, RedactableString, RedactableBytes) are proved to leave every field of the buffer "
           "and every byte visible through it unchanged (frame obligations + kept): finalize on the by-value copy is copy-on-write "
           "for escaping and only appends beyond the original's length; Reset/Take* are proved to leave exactly the zero state "
-          "(mode, markerOpen, validUntil, content); grow keeps offsets; an array reinterpreted as a string (unsafe cast in String / "
+          "(mode, markerOpen, validUntil, content); the accessors have `modifies nothing`: not a byte of an existing array is "
+          "written, also not in the spare capacity the buffer shares with its by-value copies (finding F12; conditional memory "
+          "frames on finalize/endRedactable/grow), and a RedactableBytes() result is freshly allocated; grow keeps offsets; an array reinterpreted as a string (unsafe cast in String / "
           "Take*) must no longer be reachable from the buffer when the function returns (alias.cast)."),
     ref="DESIGN 4 (C13)",
     note=TRUST + "That later operations depend only on fields and visible bytes (not on bytes beyond len) is Go semantics. "
          "'Len == len(RedactableString())' needs determinism of finalize (a 2-run statement) and is checked only by the bounded replay harness.",
-    decided=["accessor purity (fields + visible bytes unchanged), for all states", "Reset/Take* return to the pristine state; Take detaches the storage"],
+    decided=["accessor purity (fields, visible bytes AND the shared spare capacity unchanged), for all states", "Reset/Take* return to the pristine state; Take detaches the storage"],
     undecided=["Len() == len(RedactableString()) (relational; bounded only)"])
 
 P["C14"] = dict(
@@ -202,7 +211,9 @@ P["C15"] = dict(
     level="proof",
     text=("A ghost machine counts %w directives (gnw), records whether the first captured an error (ggood, gerr); the invariant WInv "
           "ties wrapErrs/wrappedErr to it through doPrintf, printArg, handleMethods, badArgNum, missingArg; HelperForErrorf returns "
-          "gerr iff exactly one %w was processed and it captured, nil otherwise; a misused %w takes the bad-verb path."),
+          "gerr iff exactly one %w was processed and it captured, nil otherwise; a misused %w takes the bad-verb path; a correctly "
+          "used %w is accepted where the operand is received and continues with the verb v, and the '#' and '+' flags are moved to "
+          "sharpV/plusV for w as for v (F14)."),
     ref="DESIGN 4 (C15)",
     note=TRUST + "Text equality with Sprintf/fmt.Errorf is C04-like and not stated.",
     decided=["returned error for every format/operand list", "second/non-error/nil %w goes to badVerb and resets capture"],
